@@ -46,7 +46,8 @@ PATCH_COMBOS_24 = [(1, 1, 1), (2, 1, 1), (1, 2, 1), (1, 1, 2), (2, 2, 1), (2, 1,
 PATCH_COMBOS_BIG = PATCH_COMBOS_24 + [(3, 3, 1), (3, 2, 2), (2, 3, 3), (3, 3, 3), (1, 3, 3), (3, 3, 2)]
 
 
-def draw_cfg(rng, quick=True):
+def draw_cfg(rng, quick=True, force=None):
+    force = force or {}
     dyadic = bool(rng.random() < 0.4)
     combos = PATCH_COMBOS_24 if quick else PATCH_COMBOS_BIG
     n = combos[int(rng.integers(len(combos)))]
@@ -71,7 +72,7 @@ def draw_cfg(rng, quick=True):
         elif u < 0.3:
             alpha[w, 0] = 1.0
     # walls given with INTEGER absorption values (rigid 0 / fully absorbing 1), as a user would type them
-    int_alpha = bool(rng.random() < 0.2)
+    int_alpha = bool(rng.random() < 0.2) or bool(force.get("int_alpha"))
     if int_alpha:
         alpha = rng.integers(0, 2, (nwalls, nb)).astype(float)
         alpha[0, :] = 0.0
@@ -79,6 +80,8 @@ def draw_cfg(rng, quick=True):
     if rng.random() < 0.3:
         scat = np.round(rng.uniform(0.1, 1.0, (nwalls, nb)), 3)
     att = np.zeros(nb) if rng.random() < 0.3 else np.round(rng.uniform(0.0, 0.2, nb), 4)
+    if force.get("att_pos"):
+        att = np.round(rng.uniform(0.02, 0.2, nb), 4)
     others = []
     for w in range(nwalls):
         o = [j for j in range(nwalls) if j != w]
@@ -296,8 +299,8 @@ def _scene_case(spec):
     rng = np.random.default_rng([spec["seed"], spec["idx"]])
     out = {"evaluations": 1, "mismatches": [], "prop_failures": [], "dist": {}, "nontrivial": []}
     quick = spec.get("quick", True)
-    cfg = draw_cfg(rng, quick)
-    tag = dict(cfg, engine="kang", seed=spec["seed"], idx=spec["idx"], quick=quick, kernel=False)
+    cfg = draw_cfg(rng, quick, spec.get("force"))
+    tag = dict(cfg, engine="kang", seed=spec["seed"], idx=spec["idx"], quick=quick, kernel=False, force=spec.get("force"))
     out["sample"] = tag
     K, N, nb = cfg["K"], cfg["N"], cfg["nb"]
     radi, source, receiver = build(cfg)
@@ -608,7 +611,8 @@ def _guard(fn, spec, kernel):
         return fn(spec)
     except Exception as exc:  # noqa: BLE001
         import traceback
-        tag = dict(engine="kang", seed=spec["seed"], idx=spec["idx"], quick=spec.get("quick", True), kernel=kernel)
+        tag = dict(engine="kang", seed=spec["seed"], idx=spec["idx"], quick=spec.get("quick", True), kernel=kernel,
+                   force=spec.get("force"))
         out = {"evaluations": 1, "mismatches": [], "prop_failures": [], "dist": {"raised": 1}, "nontrivial": [],
                "sample": tag}
         tb = traceback.format_exc()
@@ -693,7 +697,8 @@ def replay_case(res, case):
     elif case.get("kernel") is True:
         res.absorb(kernel_case(dict(seed=case["seed"], idx=case["idx"])))
     elif case.get("kernel") is False:
-        res.absorb(scene_case(dict(seed=case["seed"], idx=case["idx"], quick=case.get("quick", True))))
+        res.absorb(scene_case(dict(seed=case["seed"], idx=case["idx"], quick=case.get("quick", True),
+                                   force=case.get("force"))))
     else:
         return False
     return True
